@@ -31,7 +31,7 @@ Types == [
 
 TypeOf ==
     CASE Ty = "Bool"      -> TBool
-      [] Ty = "Int"       -> TInt
+      [] Ty \in {"Int", "IntBig"} -> TInt
       [] Ty = "Color"     -> Adt("Color", <<>>)
       [] Ty = "OptInt"    -> Adt("Option", <<TInt>>)
       [] Ty = "OptColor"  -> Adt("Option", <<Adt("Color", <<>>)>>)
@@ -79,7 +79,7 @@ Cross2(A, B) == [i \in 1..(Len(A) * Len(B)) |-> <<A[((i - 1) \div Len(B)) + 1], 
 RECURSIVE Concat(_)
 Concat(ss) == IF ss = <<>> THEN <<>> ELSE ss[1] \o Concat(Tail(ss))
 UVals(ty, d) ==
-    CASE ty.t = "Int"  -> <<VInt(0), VInt(1), VInt(99)>>
+    CASE ty.t = "Int"  -> IF Ty = "IntBig" THEN <<VInt(0), VInt(1000001), VInt(1000002), VInt(99)>> ELSE <<VInt(0), VInt(1), VInt(99)>>
       [] ty.t = "Bool" -> <<VBool(TRUE), VBool(FALSE)>>
       [] ty.t = "adt"  ->
             Concat([ci \in 1..Len(Types[ty.n].cs) |->
@@ -128,7 +128,10 @@ TupListPats ==
         a \in {Discard, [p |-> "list", ps |-> <<>>, tail |-> "none"], [p |-> "list", ps |-> <<[p |-> "int", n |-> 1]>>, tail |-> "discard"],
                [p |-> "list", ps |-> <<Discard, Discard>>, tail |-> "none"]},
         b \in {Discard, [p |-> "int", n |-> 1]}}
-PatSet == IF Ty = "ListIntSmall" THEN SmallListPats ELSE IF Ty = "TupListSmall" THEN TupListPats ELSE Pats(TypeOf, 2)
+\* "IntBig": integer literals far beyond a machine word; 1000001 and 1000002 stand for two such literals (the harness writes them
+\* as 2^70 * 720720 + 1 and + 2): matching only needs them to be different from each other and from 0
+BigIntPats == {Discard, PVar, [p |-> "int", n |-> 0], [p |-> "int", n |-> 1000001], [p |-> "int", n |-> 1000002]}
+PatSet == IF Ty = "IntBig" THEN BigIntPats ELSE IF Ty = "ListIntSmall" THEN SmallListPats ELSE IF Ty = "TupListSmall" THEN TupListPats ELSE Pats(TypeOf, 2)
 Init == \E n \in 1..K : cl \in SeqsN(PatSet, n)
 Next == UNCHANGED cl
 Spec == Init /\ [][Next]_cl
